@@ -25,7 +25,7 @@ def op_label(op):
     if k == 'forward_only':
         return 'forward_only' + (':abort' if op.get('abort') else '')
     if k == 'set_mode':
-        return 'set_mode:' + op['mode']
+        return 'set_mode:' + op['mode'] + ('@' + op['scope'].split(':')[0] if op.get('scope') else '')
     if k == 'train_burst':
         return 'train_burst:' + op.get('which', 'both')
     if k == 'perturb_net':
@@ -136,6 +136,8 @@ def run_twin(case, compare_sections=('params', 'rg', 'flags', 'grads'), probe_fo
         nonlocal last_fault, fault_since_state_op
         torch.manual_seed(torch_seed(run_seed, 'inject', idx, sub))
         bump('fault_' + op['op'] + ('_mid_step' if sub != 0 else ''))
+        if len({m_.training for m_ in S.model.modules()}) > 1:
+            bump('fault_with_model_in_mixed_training_status')
         last_fault = op['op'] + (':mid' if sub != 0 else '')
         fault_since_state_op = True
         try:
@@ -172,6 +174,8 @@ def run_twin(case, compare_sections=('params', 'rg', 'flags', 'grads'), probe_fo
             bump('crashpoint_in_' + ('train' if S.model.training else 'eval') + '_mode')
             if any(p.grad is not None for p in S.model.parameters()):
                 bump('crashpoint_with_pending_grads')
+            if len({m_.training for m_ in S.model.modules()}) > 1:
+                bump('fault_with_model_in_mixed_training_status')
             try:
                 torch.manual_seed(torch_seed(run_seed, 'rebuild-prologue', idx))
                 res, fresh_sd, saved_sd = S.crash_restart(torch_seed(run_seed, 'rebuild', idx),
